@@ -1233,35 +1233,13 @@ func explainWithElement(sb *strings.Builder, n *ast.WithElement, indent string, 
 	case *ast.LikeExpr:
 		explainLikeExprWithAlias(sb, e, n.Name, indent, depth)
 	case *ast.UnaryExpr:
-		// For unary minus with numeric literal, output as negative literal with alias
-		if e.Op == "-" {
-			if lit, ok := e.Operand.(*ast.Literal); ok && (lit.Type == ast.LiteralInteger || lit.Type == ast.LiteralFloat) {
-				// Format as negative literal
-				negLit := &ast.Literal{
-					Position: lit.Position,
-					Type:     lit.Type,
-					Value:    lit.Value,
-				}
-				if n.Name != "" {
-					fmt.Fprintf(sb, "%sLiteral %s (alias %s)\n", indent, formatNegativeLiteral(negLit), n.Name)
-				} else {
-					fmt.Fprintf(sb, "%sLiteral %s\n", indent, formatNegativeLiteral(negLit))
-				}
-				return
-			}
-		}
-		// For other unary expressions, output as function
-		fnName := "negate"
-		if e.Op == "NOT" {
-			fnName = "not"
-		}
+		// Same rendering as any other (aliased) unary expression: -1 folds into a literal,
+		// -0 is UInt64_0, -(1) and NOT x are function calls
 		if n.Name != "" {
-			fmt.Fprintf(sb, "%sFunction %s (alias %s) (children %d)\n", indent, fnName, n.Name, 1)
+			explainAliasedExpr(sb, &ast.AliasedExpr{Position: e.Position, Expr: e, Alias: n.Name}, depth)
 		} else {
-			fmt.Fprintf(sb, "%sFunction %s (children %d)\n", indent, fnName, 1)
+			explainUnaryExpr(sb, e, indent, depth)
 		}
-		fmt.Fprintf(sb, "%s ExpressionList (children %d)\n", indent, 1)
-		Node(sb, e.Operand, depth+2)
 	case *ast.TernaryExpr:
 		// Ternary expressions become if functions with alias
 		if n.Name != "" {
